@@ -131,6 +131,8 @@ func c01Structured() []kindDef {
 		{"disc-map", "kind", map[string]string{"a": "VarA", "b": "VarB", "b2": "VarB"}},
 		{"disc-map-bare", "kind", map[string]string{"a": "=VarA", "b": "=VarB"}},
 		{"disc-map-restates", "kind", map[string]string{"VarA": "VarA"}},
+		// a schema's own name restated next to keys that sort before and after it
+		{"disc-map-restates-among-others", "kind", map[string]string{"VarA": "VarA", "Alpha": "VarA", "zed": "VarA", "Beta": "VarB", "VarB": "VarB"}},
 		{"disc-map-other-name", "kind", map[string]string{"VarB": "VarA"}},
 		{"disc-map-nonvariant", "kind", map[string]string{"a": "Pet", "b": "VarB", "c": "VarA"}},
 		{"disc-map-nonvariant-bare", "kind", map[string]string{"a": "=Pet", "b": "VarB", "c": "VarA"}},
